@@ -223,6 +223,114 @@ H = Harness(
 HARNESSES = [H]
 
 
+# ------------------------------------------------------------------------------ K-subscribers
+from itertools import permutations as _perms  # noqa: E402
+
+LEAVE_ORDERS = list(_perms(range(3)))
+
+
+def subs_params(tier):
+    return [P("order", 0, 5), P("slowpos", 0, 3), P("kind", 0, 1)]
+
+
+@guard
+def subs_fn(a, tier):
+    """Several subscribers of ONE channel coming and going in any order, next to a subscriber of the channel AND a neighbour
+    channel whose 1-slot queue is full: the channel's remaining subscribers keep getting the channel's events."""
+    import warnings
+
+    order = LEAVE_ORDERS[pick(a["order"], 6)]
+    slowpos = pick(a["slowpos"], 4)
+    cls = [Base, Sized][pick(a["kind"], 2)]
+    obj = cls()
+    got = {i: [] for i in range(3)}
+    got_b, errors, expected = [], [], {i: [] for i in range(3)}
+
+    async def main():
+        async with anyio.create_task_group() as tg:
+            scopes = {}
+
+            async def listen(i, *, task_status):
+                with anyio.CancelScope() as sc:
+                    scopes[i] = sc
+                    async with obj.a.stream_events() as stream:
+                        task_status.started()
+                        async for ev in stream:
+                            got[i].append(ev)
+
+            async def listen_b(*, task_status):
+                async with obj.b.stream_events() as stream:
+                    task_status.started()
+                    async for ev in stream:
+                        got_b.append(ev)
+
+            async def slow(*, task_status):
+                async with stream_events([obj.a, obj.b], max_queue_size=1):
+                    task_status.started()
+                    await anyio.sleep_forever()  # never reads
+
+            await tg.start(listen_b)
+            for i in range(3):
+                if slowpos == i + 1:
+                    await tg.start(slow)
+                await tg.start(listen, i)
+            active = [0, 1, 2]
+            filler = EB()
+            with warnings.catch_warnings():
+                warnings.simplefilter("ignore")
+                obj.b.dispatch(filler)  # fills the slow subscriber's only slot with an event of the NEIGHBOUR channel
+
+                def send():
+                    ev = EA()
+                    try:
+                        obj.a.dispatch(ev)
+                    except Exception as e:  # noqa
+                        errors.append(("dispatch-raised", type(e).__name__))
+                    for i in active:
+                        expected[i].append(ev)
+
+                send()
+                for leaver in order:
+                    await anyio.wait_all_tasks_blocked()
+                    scopes[leaver].cancel()
+                    await anyio.wait_all_tasks_blocked()
+                    active.remove(leaver)
+                    send()
+            await anyio.wait_all_tasks_blocked()
+            tg.cancel_scope.cancel()
+        for i in range(3):
+            if len(got[i]) != len(expected[i]) or any(x is not y for x, y in zip(got[i], expected[i])):
+                errors.append(("subscriber-of-the-channel-missed-or-got-extra-events", f"subscriber {i}: got {len(got[i])}, expected {len(expected[i])}"))
+        if len(got_b) != 1 or got_b[0] is not filler:
+            errors.append(("neighbour-channel-subscriber", f"got {len(got_b)} events"))
+
+    _, exc, _k = run(main)
+    summary = {"leave_order_of_the_three_subscribers": list(order), "owner": ["plain class", "falsy instances"][cls is Sized],
+               "subscriber_with_a_full_1_slot_queue_over_both_channels": ["none", "subscribed first", "subscribed second", "subscribed third"][slowpos]}
+    if exc is not None:
+        return FAIL(f"subscribers:raised:{type(exc).__name__}", repr(exc), summary)
+    if errors:
+        return FAIL(f"subscribers:{errors[0][0]}:slow={slowpos}", errors[:3], summary)
+    return OK(summary, True)
+
+
+SUBS = Harness(
+    prop="C11",
+    name="K-subscribers",
+    fn=subs_fn,
+    params=subs_params,
+    cube=lambda tier: 0,
+    title="several subscribers of one channel leaving in any order, beside a full-queue subscriber that also listens to the neighbour channel",
+    bound_text=lambda tier: "three subscribers of obj.a (tasks, entered in order, leaving by cancellation in any of the 6 orders), one subscriber of obj.b, optionally a "
+    "never-reading subscriber of [obj.a, obj.b] with max_queue_size=1 entered first/second/third whose slot is filled by an obj.b event; one obj.a event after every change",
+    oracle="every obj.a event is delivered to exactly the obj.a subscribers subscribed at that moment (identity, order), dispatch never raises, the obj.b subscriber "
+    "gets only the obj.b event",
+    outside="leaving by other routes and queue overflow details (C10 E-history / E-queue)",
+    stubs=STUBS_COMMON,
+)
+HARNESSES.append(SUBS)
+
+
 # ------------------------------------------------------------------------------ G-reuse
 def reuse_params(tier):
     return [P("kind", 0, 1), P("touch1", 0, 1)]
@@ -300,7 +408,8 @@ def reuse_fn(a, tier):
     if out.get("skipped"):
         return OK(summary, nontrivial=False)  # the allocator did not hand the address out again
     if not out["fresh"] or out["leak"] or not out["own"] or not out["source"]:
-        return FAIL("reuse:bound-signal-of-a-dead-owner-inherited-by-a-new-object-at-the-same-address", f"{out}", summary)
+        what = "stream-of-a-dead-owner-got-the-event" if out["leak"] else "event-not-stamped-with-the-dispatching-instance" if not out["source"] else "own-listener-missed-it" if not out["own"] else "signal-object-shared"
+        return FAIL(f"reuse:bound-signal-of-a-dead-owner-inherited-by-a-new-object-at-the-same-address:{what}", f"{out}", summary)
     return OK(summary, True)
 
 
